@@ -345,10 +345,13 @@ QUICK_MASTERS = [
     ["a", "B"], ["A", "b", "C"], ["ab", "B", "x y"], ["Ab", "a", "c_d"], ["B", "x y"],
     ["a", "B", "ab", "c_d"], ["a", "B", "ab", "c_d", "x y"],
     ["ab", "Ab"],  # names equal up to case (outside the well-formed domain, correspondence only)
+    ["weg", "stra\xdfe", "strasse"], ["grob", "Ma\xdf", "fein"],
 ]
 MORE_MASTERS = [["c_d", "Ab"], ["x y", "a", "B"], ["B", "ab", "c_d"], ["a", "ab", "Ab"], ["x y", "X Y"],
                 ["A", "B", "C", "D"], ["a", "b"], ["Ab", "c_d", "x y", "B", "a"]]
-ODD_NAMES = ["none", "Auto", "*a", "a+b", "+", "a*", "\xc9", "\xe9", "A+B", "", "zz", "b"]
+ODD_NAMES = ["none", "Auto", "*a", "a+b", "+", "a*", "\xc9", "\xe9", "A+B", "", "zz", "b",
+             # names that str.lower() keeps apart but str.casefold() would merge (sharp s)
+             "stra\xdfe", "strasse", "Ma\xdf", "mass", "STRASSE"]
 
 
 def star_subsets(n, rng, limit):
